@@ -45,8 +45,9 @@ def main(argv=None):
             st = selftest.run_for(prop)
             check.coverage_extra = dict(getattr(check, 'coverage_extra', {}) or {})
             check.coverage_extra['self_validation'] = st
-            print('self-validation: %d/%d mutants detected, %d/%d twins silent%s%s' % (
+            print('self-validation: %d/%d mutants detected, %d/%d twins silent, %d/%d seeded changes detected, %d/%d stored refactors silent%s%s' % (
                 st.get('mutants_detected', 0), st.get('mutants', 0), st.get('twins_silent', 0), st.get('twins', 0),
+                st.get('seeded_detected', 0), st.get('seeded', 0), st.get('stored_twins_silent', 0), st.get('stored_twins', 0),
                 '; survivors %s' % st['survivors'] if st.get('survivors') else '', '; noisy twins %s' % st['noisy_twins'] if st.get('noisy_twins') else ''))
         if ns.replay:
             with open(ns.replay) as f:
